@@ -493,6 +493,15 @@ class Evaluator:
             return ("ref", ("val", ("sym", "constalloc:%s@%s" % (ty["s"], id(c)), ty["s"]), ()), False)
         if k == "indirect":
             to = v["to"]
+            if to.get("k") == "alloc" and ty["k"] == "ref" and ty["inner"].get("k") in ("slice", "str") and len(to["ptrs"]) == 1 and to["ptrs"][0][0] == to.get("offset", 0):
+                # a fat pointer stored in memory: (data pointer, length)
+                off = to.get("offset", 0)
+                raw = bytes(to["bytes"])
+                ln = int.from_bytes(raw[off + 8:off + 16], "little")
+                inner = to["ptrs"][0][1]
+                if inner.get("k") == "alloc" and not inner["ptrs"]:
+                    b = bytes(inner["bytes"])[inner.get("offset", 0):][:ln]
+                    return ("ref", ("val", ("bytes", b), ()), False)
             if to.get("k") == "alloc" and not to["ptrs"] and ty["k"] == "array" and ty["inner"].get("bits") == 8:
                 return ("bytes", bytes(to["bytes"])[to.get("offset", 0):][:ty["len"]])
             return ("sym", "constval:%s" % ty["s"], ty["s"])
